@@ -477,6 +477,68 @@ def check_C06(tier):
                          versions_pool=gen.VERSION_POOL, p_fail=0.05, p_clean=0.0, min_builds=3, max_builds=6)
 
 
+def spelling_probe(tier, rep):
+    """C07, the spellings the models cannot express: a target below a symbolic link given as str, pathlib.Path, bytes and a
+    custom PathLike is ONE file (links are not resolved: the identity is os.path.abspath of the spelling) - a second
+    build_file in the same build is refused, a later build is a hit whatever the spelling; and keyword arguments with
+    names the library uses internally (description, operation, ...) are ordinary keyword arguments."""
+    import pathlib
+    import shutil
+    import tempfile
+    fb = realrun.load_fb()
+    FB = fb.FileBuilder
+    problems = []
+    root = os.path.realpath(tempfile.mkdtemp(prefix='fbh_sp_', dir=realrun.SANDBOX_BASE))
+
+    class P:
+        def __init__(self, v):
+            self.v = v
+
+        def __fspath__(self):
+            return self.v
+    try:
+        os.mkdir(os.path.join(root, 'real'))
+        os.symlink(os.path.join(root, 'real'), os.path.join(root, 'link'))
+        cache = os.path.join(root, 'cache.gz')
+        t = os.path.join(root, 'link', 'o', 'out.txt')
+        spellings = [('str', t), ('pathlib', pathlib.Path(t)), ('bytes', os.fsencode(t)), ('PathLike', P(t)), ('PathLike(bytes)', P(os.fsencode(t)))]
+        ran, got = [], []
+
+        def f(b, fn, **kw):
+            ran.append(sorted(kw))
+            got.append(fn)
+            with open(fn, 'w') as fh:
+                fh.write('x')
+            return sorted(kw.items())
+        kws = {'description': 'd', 'operation': 1, 'created_files': [2], 'filename_': 'n'}
+        for i, (name, sp) in enumerate(spellings):
+            def rootf(b, sp=sp, i=i):
+                r1 = b.build_file(sp, 'f', f, **kws)
+                dup = None
+                try:
+                    b.build_file(spellings[(i + 1) % len(spellings)][1], 'f', f, **kws)
+                except RuntimeError:
+                    dup = 'refused'
+                s1 = b.subbuild('g', lambda bb, **kw: sorted(kw.items()), **kws)
+                return [r1, dup, s1]
+            del ran[:]
+            r = FB.build(cache, 'n', rootf)
+            rep.count('spelling_probe_builds')
+            if r[1] != 'refused':
+                problems.append({'what': 'the same target below a symbolic link spelled as %s and as %s was accepted twice in one build' % (name, spellings[(i + 1) % len(spellings)][0])})
+            if i > 0 and ran:
+                problems.append({'what': 'the target built under the spelling %s was rebuilt under the spelling %s (nothing changed)' % (spellings[i - 1][0], name)})
+            if r[0] != sorted(kws.items()) and r[0] != [list(x) for x in sorted(kws.items())]:
+                problems.append({'what': 'keyword arguments named like internals of the library did not reach the function as they were: %r' % (r[0],)})
+        if got and got[0] != t:
+            problems.append({'what': 'the function received %r instead of os.path.abspath of the spelling %r' % (got[0], t)})
+    except Exception as e:
+        problems.append({'what': 'the spelling probe raised %s: %s' % (type(e).__name__, str(e)[:200])})
+    finally:
+        shutil.rmtree(root, ignore_errors=True)
+    return problems
+
+
 def check_C07(tier):
     from . import pathcheck
     return run_hist_prop_then_threads('C07', tier, 7, 700, 30000, families=[gen.scen_dups, gen.scen_identity], per_family=(380, 5000), prof=RICH_ARGS,
@@ -487,8 +549,11 @@ def check_C07(tier):
 
 def run_hist_prop_then_threads(prop, tier, *a, **kw):
     """C07: the identity of a key must not depend on its spelling when two threads race for it either"""
-    kw['_after'] = lambda rep: explore_threads(prop, tier, rep, ['dup_sub_json_equal', 'dup_sub_json_equal_cached'],
-                                               budget(tier, 2, 3), budget(tier, 300, 5000))
+    def _after(rep):
+        for q in spelling_probe(tier, rep)[:3]:
+            rep.violation('spelling', {'property': prop, 'kind': 'failing-input', 'what': q}, note=q['what'][:250])
+        explore_threads(prop, tier, rep, ['dup_sub_json_equal', 'dup_sub_json_equal_cached'], budget(tier, 2, 3), budget(tier, 300, 5000))
+    kw['_after'] = _after
     return run_hist_prop(prop, tier, *a, **kw)
 
 
@@ -549,6 +614,55 @@ def symlink_probe(tier, rep):
                     'exists_d2sub': b.exists(os.path.dirname(t2)), 'list_link': sorted(b.list_dir(os.path.join(root, 'link')))}
         r = FB.build(cache, 'n', rootf)
         rep.count('symlink_probes')
+        # (a) the function publishes its target as a symbolic link to a file it keeps elsewhere, then raises: the link goes
+        # (b) a target given as bytes that are not valid UTF-8: the function gets os.path.abspath(os.fsdecode(target)), the
+        #     file lies at exactly those bytes, two targets that differ in such a byte are two targets
+        store = os.path.join(root, 'store.bin')
+        with open(store, 'w') as fh:
+            fh.write('blob')
+        odd1 = os.path.join(os.fsencode(root), b'r\xe9s', b'caf\xe9.txt')
+        odd2 = os.path.join(os.fsencode(root), b'r\xe9s', b'caf\xe8.txt')
+        got = {}
+
+        def publish_link_then_fail(b, fn):
+            os.symlink(store, fn)
+            raise ValueError('boom')
+
+        def publish_link(b, fn):
+            os.symlink(store, fn)
+
+        def odd(b, fn, tag):
+            got[tag] = fn
+            with open(fn, 'w') as fh:
+                fh.write(tag)
+
+        def root2(b):
+            t3 = os.path.join(root, 'l1', 'sub', 'linked')
+            try:
+                b.build_file(t3, 'plf', publish_link_then_fail)
+                out = ['returned']
+            except ValueError:
+                out = ['raised']
+            out += [os.path.lexists(t3), b.exists(t3), b.is_dir(os.path.join(root, 'l1'))]
+            b.build_file(os.path.join(root, 'l2', 'linked'), 'pl', publish_link)
+            b.build_file(odd1, 'odd', odd, 'one')
+            b.build_file(odd2, 'odd', odd, 'two')
+            return out
+        try:
+            r2 = FB.build(os.path.join(root, 'cache2.gz'), 'n', root2)
+            if r2 != ['raised', False, False, False]:
+                problems.append({'what': 'a function that published its target as a symbolic link and then raised: [outcome, link still there, exists(target), is_dir(made directory)] = %s' % r2})
+            if os.path.lexists(os.path.join(root, 'l1')):
+                problems.append({'what': 'the directories made for a failed build_file whose function left a symbolic link at the target are still there at the end of the build'})
+            if not os.path.isfile(os.path.join(root, 'l2', 'linked')):
+                problems.append({'what': 'a target published as a symbolic link to a regular file is missing after the build'})
+            for tag, t in (('one', odd1), ('two', odd2)):
+                if got.get(tag) != os.path.abspath(os.fsdecode(t)):
+                    problems.append({'what': 'a bytes target that is not valid UTF-8: the function received %r instead of %r' % (got.get(tag), os.path.abspath(os.fsdecode(t)))})
+                elif not os.path.isfile(t) or open(t).read() != tag:
+                    problems.append({'what': 'a bytes target that is not valid UTF-8: build_file returned but %r is not the file its function wrote' % t})
+        except Exception as e:
+            problems.append({'what': 'odd targets (symbolic link published by the function, non-UTF-8 bytes): build raised %s: %s' % (type(e).__name__, str(e)[:160])})
         if seen.get('ok') != r['t1'] or seen.get('bad') != r['t2']:
             problems.append({'what': 'the function did not receive os.path.abspath of the path as spelled', 'passed': seen, 'spelled': [r['t1'], r['t2']]})
         if not r['is_file_t1'] or r['is_dir_d2'] or r['exists_d2sub'] or r['list_link'] != ['d1']:
@@ -946,7 +1060,8 @@ def check_C13(tier):
 def c15_cases(tier, ds):
     out = []
     classes = ['truncate:0', 'truncate:5', 'truncate:20', 'truncate:1000000', 'bitflip:3', 'bitflip:40', 'bitflip:97',
-               'nongzip', 'gzip_nonjson', 'wrong_shape', 'other_software', 'no_software', 'newer_version', 'empty']
+               'nongzip', 'gzip_nonjson', 'wrong_shape', 'other_software', 'no_software', 'newer_version', 'empty',
+               'no_version', 'no_key:buildName', 'no_key:rootOperations', 'no_key:createdDirs', 'no_key:funcVersions', 'badutf8', 'badutf8:0', 'badutf8:1', 'badutf8:2', 'badutf8:5']
     # JSON of the wrong shape: a field of the document or of an operation holds a value of the wrong type
     for name in ('createdDirs', 'funcVersions', 'operationVersions', 'rootOperations', 'buildName'):
         for val in ('null', '7', 'true', '[7]', '"x"', '{"a": 1}'):
@@ -1585,6 +1700,66 @@ def alias_failing(case):
     return hist.alias_diff(case, a, b)
 
 
+def deep_value_probe(tier, rep):
+    """C11 where copy.deepcopy itself gives up: a subbuild (fresh, then served from the cache) returns a list nested
+    d levels deep.  The call may raise RecursionError (a refusal is no aliasing); if it RETURNS a value, appending to
+    that value must not change what a later build returns."""
+    import shutil
+    import tempfile
+    fb = realrun.load_fb()
+    FB = fb.FileBuilder
+    problems = []
+
+    def nest(d):
+        v = ['leaf']
+        for i in range(d):
+            v = [v, i % 7]
+        return v
+
+    def sig(v):
+        out = []
+        while isinstance(v, list):
+            out.append((len(v), tuple(x for x in v if not isinstance(x, list))))
+            nxt = [x for x in v if isinstance(x, list)]
+            v = nxt[0] if nxt else None
+        return out
+    for d in ([40, 300, 480, 560, 640, 720, 800, 880] if tier == 'quick' else list(range(40, 960, 20))):
+        root = os.path.realpath(tempfile.mkdtemp(prefix='fbh_deep_', dir=realrun.SANDBOX_BASE))
+        cache = os.path.join(root, 'cache.gz')
+        want = sig(nest(d))
+        try:
+            seen = []
+            for n in range(3):
+                def rootf(b):
+                    outs = []
+                    for k in range(2):
+                        try:
+                            v = b.subbuild('deep', lambda bb, dd, kk: nest(dd), d, k)
+                        except RecursionError:
+                            outs.append('recursion')
+                            continue
+                        outs.append(sig(v))
+                        v.append('MUTATED')
+                        w = v
+                        while isinstance(w[0], list):
+                            w = w[0]
+                        w.append('MUTATED-LEAF')
+                    return outs
+                try:
+                    outs = FB.build(cache, 'n', rootf)
+                except RecursionError:
+                    outs = ['recursion']
+                rep.count('deep_value_builds')
+                seen.append(['recursion' if o == 'recursion' else ('ok' if o == want else 'changed') for o in outs])
+            if any('changed' in x for x in seen):
+                problems.append({'what': 'a subbuild returning a list nested %d deep: after the caller appended to the value it was handed, later calls/builds returned a changed value (per build, per call: %s)' % (d, seen), 'depth': d})
+        except Exception as e:
+            problems.append({'what': 'deep value probe (depth %d) raised %s: %s' % (d, type(e).__name__, str(e)[:160]), 'depth': d})
+        finally:
+            shutil.rmtree(root, ignore_errors=True)
+    return problems
+
+
 def check_C11(tier):
     rep = core.Report('C11', tier)
     gate = core.proof_gate(THEOREMS['C11'], tier)
@@ -1599,6 +1774,8 @@ def check_C11(tier):
         rep.violation('heap', {'property': 'C11', 'kind': 'failing-input', 'what': q['what'], 'heap_case': q['case'], 'build': q.get('build'),
                                'detail': q.get('detail'), 'how_to_replay': './check C11 --replay <this file>'},
                       note='%s (build %s): %s' % (q['what'], q.get('build'), json.dumps(q.get('detail'))[:200]))
+    for q in deep_value_probe(tier, rep)[:2]:
+        rep.violation('deep%d' % q['depth'], {'property': 'C11', 'kind': 'failing-input', 'what': q}, note=q['what'][:260])
     prof = dict(RICH_ARGS, rets=['acc', 'acc', 'const', 'const'], p_q=0.35)
     cases = gen.gen_scenario_cases(core.seed() * 31 + 11, budget(tier, 20, 500), ds)
     cases += random_cases(tier, 500, 25000, 11, prof=prof, dirsize=ds, p_fail=0.1, p_clean=0.0, min_builds=3, max_builds=5)
